@@ -254,6 +254,7 @@ type endInfo struct {
 	Sample         string   `json:"sample,omitempty"`
 	Notes          []string `json:"notes,omitempty"`
 	SaltDup        int      `json:"salt_dup"`
+	Flood          int64    `json:"flood"`
 	Layout         string   `json:"layout"`
 	Prom           *promCmp `json:"prom,omitempty"`
 }
@@ -306,6 +307,9 @@ func (r *run) doShutdown(baseG, baseFd int) endInfo {
 	}
 	ei.Notes = r.notes
 	ei.SaltDup = r.saltDup
+	r.rec.mu.Lock()
+	ei.Flood = r.rec.flood
+	r.rec.mu.Unlock()
 	if r.promReg != nil {
 		ei.Prom = r.promCompare()
 	}
